@@ -172,18 +172,13 @@ class Streams:
                 yield from self.all_struct_arrays(el, lambda v, w=wrap: w([v]), depth + 1)
 
     def extras_stream(self):
-        """(root, tag, json_without, json_with) for C15: same value with and without undeclared keys."""
-        n_rand = 6 if self.thorough else 1
-        for name, kind, t in self.roots:
-            for mode in ["min", "max"] + ["rand"] * n_rand:
-                st = self.rnd.getstate()
-                plain = ValueGen(self.m, self.rnd, max_depth=self.vg.max_depth)
-                a = plain.value(t, mode)
-                # regenerate the same value with extras interleaved: replay the same random choices for
-                # the value itself by structural injection instead of regeneration
-                b = self.inject(t, copy.deepcopy(a))
-                if b is not None:
-                    yield (name, mode, a, b)
+        """(root, tag, json_without, json_with) for C15: every value of the valid stream (all root
+        types; min / max / random; every forced union alternative, nested, mixed arrays) together
+        with a copy in which fresh undeclared keys are injected at every protocol-object node."""
+        for name, tag, a in self.valid_stream():
+            b = self.inject(self.root_type[name], copy.deepcopy(a))
+            if b is not None and b != a:
+                yield (name, tag.split(":")[-1] if tag in ("min", "max", "rand") else tag, a, b)
 
     def inject(self, t, j, depth=0):
         """Add undeclared keys at every protocol-object node of j (type-directed). For `or` nodes
@@ -224,8 +219,8 @@ class Streams:
         return j
 
     def inject_props(self, props, j, depth):
-        if not isinstance(j, dict):
-            return j
+        if not isinstance(j, dict) or not props:
+            return j  # the empty literal `{}` maps to Any: an uninterpreted payload position
         out = {}
         byname = {p["name"]: p for p in props}
         for kk, v in j.items():
